@@ -149,7 +149,11 @@ def monitors(steps, focus):
         if conf is not None and focus in ("C05", "C09"):
             out.append(("(mon_agree %s %s %s)" % (conf_trees(conf), clist(cN(x) for x in d.get("pending", [])), cdump(d)), i,
                         "agree"))
-        if k == "alloc_ranges" and prev is not None and focus == "C08" and ex.get("ranges"):
+        # (the property quantifies over the failure of any SINGLE object creation: a request in which a creation failed AND a
+        #  deletion of the roll-back failed as well - an unseen reservation's conflict plus an injected fault - is outside it;
+        #  what the code does then is still compared with the model step by step)
+        if k == "alloc_ranges" and prev is not None and focus == "C08" and ex.get("ranges") and \
+                not any(c[0] == "delete" and c[2] for c in (o.get("calls") or [])):
             out.append(("(mon_ranges %s %s %s %s %s %s %s)" % (
                 cdump(prev), cdump(d), cstr(ex["key"]), csubnet(ex["subnet"]), cranges(ex["ranges"]),
                 cbool(o.get("res") == "ok"), clist(cN(x) for x in (o.get("ips") or []))), i, "multi_ip"))
